@@ -174,8 +174,14 @@ def get_files(
                 continue
 
             path = Path(os.path.join(base, name))
+            try:
+                resolved = path.resolve()
+            except (OSError, RuntimeError):
+                # A symlink which loops back onto itself leads nowhere
+                continue
+
             # Detect and ignore symlinks outside of our jail
-            if is_relative_to(path.resolve(), must_be_relative_to):
+            if is_relative_to(resolved, must_be_relative_to):
                 yield path
 
 
